@@ -7,13 +7,13 @@
 EXTENDS Cache, TLC
 
 CONSTANTS MaxClock, MaxHist, MaxLen
-VARIABLE h
-mcvars == <<cvars, h>>
+VARIABLES h, i0       \* behaviour so far; initial directory and lifetime (for replays)
+mcvars == <<cvars, h, i0>>
 
 Busy == \E w \in Workers : pc[w] # "idle"
 Ticks == IF T = 0 THEN {1, 2} ELSE {1, T - 1, T, T + 1}
 
-MInit == Init /\ h = <<>>
+MInit == Init /\ h = <<>> /\ i0 = [d |-> dir, T |-> T]
 
 Env(a) ==
     /\ ~Busy
@@ -28,9 +28,9 @@ Req(a) == /\ ~Busy /\ \E p \in Protos : a = [a |-> "request", p |-> p] /\ Start(
 MNext ==
     \/ \E a \in [a : {"create", "delete", "editmeta"}, n : Names] \cup [a : {"rename"}, n : Names, m : Names]
               \cup [a : {"tick"}, d : Ticks] :
-           Env(a) /\ h' = Append(h, a)
-    \/ \E a \in [a : {"request"}, p : Protos] : Req(a) /\ h' = Append(h, a)
-    \/ (\E w \in Workers : WorkerStep(w)) /\ UNCHANGED h
+           Env(a) /\ h' = Append(h, a) /\ UNCHANGED i0
+    \/ \E a \in [a : {"request"}, p : Protos] : Req(a) /\ h' = Append(h, a) /\ UNCHANGED i0
+    \/ (\E w \in Workers : WorkerStep(w)) /\ UNCHANGED <<h, i0>>
 
 MSpec == MInit /\ [][MNext]_mcvars
 
